@@ -62,6 +62,23 @@ STRUCT = {
 }
 
 
+# an inline node whose content is block content (a footnote holding paragraphs): wrapping searches that start in
+# inline content can reach block types through it
+NOTE = {
+    "nodes": {
+        "doc": {"content": "block+"},
+        "p": {"content": "(text | note | br)*", "group": "block"},
+        "h": {"content": "text*", "group": "block"},
+        "note": {"content": "(p | lst)+", "inline": True, "group": "inline"},
+        "lst": {"content": "item+"},
+        "item": {"content": "p+"},
+        "bq": {"content": "block+", "group": "block"},
+        "br": {"inline": True, "group": "inline"},
+        "text": {"group": "inline"},
+    },
+}
+
+
 def random_layered_schema(rng):
     """A random well-founded schema with wrapper chains of depth >= 2: leaves, textblocks, two layers of
     containers whose content expressions mix required tails, options and alternatives, and a top node
@@ -226,7 +243,7 @@ def run(tier: str, seed: int, t0: float) -> int:
     jobs = []
     meta = []
     # ---- schemas
-    fam = [("s5", S5), ("struct", STRUCT)] + [(n, schemas.spec_of(n)) for n in schemas.BUNDLED_PLUS + ["s1", "s3"]]
+    fam = [("s5", S5), ("struct", STRUCT), ("note", NOTE)] + [(n, schemas.spec_of(n)) for n in schemas.BUNDLED_PLUS + ["s1", "s3"]]
     for k in range(12 if not thorough else 120):
         spec = random_layered_schema(rng)
         if spec is not None:
